@@ -32,6 +32,7 @@ class Unit:
     reach: bool = True              # vacuity guard: end of harness must be reachable
     reach_timeout: int = 120
     harness_pre: str = ''            # ghost assignments before the call in the generated harness (e.g. g_N = numNodes;)
+    small: str = ''                 # small-domain restriction for the extra SAT refuter (never used to prove)
     witness: str = ''               # optional concrete inputs for the vacuity guard run
     flags: list = field(default_factory=list)      # extra cbmc flags
     no_flags: list = field(default_factory=list)   # default cbmc flags to drop
@@ -126,6 +127,8 @@ def build_tu(u, registry):
             h += '  ' + u.harness_pre.strip() + '\n'
         if u.witness:
             h += '  GV_WITNESS(%s);\n' % u.witness
+        if u.small:
+            h += '  GV_SMALL(%s);\n' % u.small
         h += '  %s(%s);\n' % (u.fn, ', '.join(n for _, n in ps))
     if u.reach:
         h += '  GV_REACH_END;\n'
